@@ -313,6 +313,17 @@ def hkl3(h):
     return [int(h[0]), int(h[1]), int(h[-1])]
 
 
+def search_failed(e, h, tag=''):
+    """'Failed to find ... vector' with the default maxindex is a failure, not a refusal: the default search range
+    max(|hkl|, |lcm in-plane vectors|) always contains the two non-parallel in-plane lattice vectors of the lcm
+    construction (so a shortest in-plane vector, and a non-parallel right-handed partner +-v of it, exist in range) and a
+    unit vector +-e_i that is off the plane on its positive side; the quantifier admits only the refusal 'orientation
+    incompatible with the cut vector'"""
+    which = 'first' if 'first' in str(e) else ('second' if 'second' in str(e) else 'normal')
+    return Fail(key=tag + 'search-failed-%s-vector' % which, hkl=h,
+                msg='AssertionError with the default maxindex although in-plane lattice vectors exist inside the search range: %s' % e)
+
+
 # ----------------------------------------------------------------------------------------------
 # clause: free_surface_basis
 
@@ -332,8 +343,7 @@ def basis(case):
         uvws, normal = free_surface_basis(np.array(h) if case.get('arr') else list(h), **kw)
     except AssertionError as e:
         if 'Failed to find' in str(e):
-            chk.note('refused: basis search failed (documented AssertionError): ' + str(e))
-            return []
+            return [search_failed(e, h)]
         raise
     except ValueError as e:
         return [Fail(key='valid-plane-refused', msg='ValueError for a valid plane: %s' % e, hkl=h)]
@@ -730,8 +740,7 @@ def slab(case):
         fs = FreeSurface(list(h), ucell, **kw)
     except AssertionError as e:
         if 'Failed to find' in str(e):
-            chk.note('refused: FreeSurface basis search failed (documented AssertionError): ' + str(e))
-            return []
+            return [search_failed(e, h, 'FreeSurface-')]
         raise
     except ValueError as e:
         return classify_refusal(e, 'FreeSurface')
